@@ -3,7 +3,7 @@
 import json, os, sys
 ROOT = os.path.dirname(os.path.dirname(os.path.abspath(__file__)))
 sys.path.insert(0, os.path.join(ROOT, "tools"))
-from props import PROPS, NOT_CLAIMED
+from props import CLAIMED as PROPS, NOT_CLAIMED
 
 hooks = {
     "guard": "LIBFIBER_VERIF",
